@@ -140,3 +140,24 @@ func zeroCopyReader(st *[]tlog.Hash) tlog.HashReader {
 		return out, nil
 	})
 }
+
+// faultyReader returns a full-length result TOGETHER with an error when asked for the poisoned index
+// (the "out := make(...); ...; return out, err" style, which the HashReader contract allows): the hashes
+// it hands out in that case are garbage and must not be used.
+func faultyReader(st []tlog.Hash, poisoned int64) tlog.HashReader {
+	return tlog.HashReaderFunc(func(ix []int64) ([]tlog.Hash, error) {
+		out := make([]tlog.Hash, len(ix))
+		var err error
+		for i, x := range ix {
+			if x < 0 || int(x) >= len(st) {
+				return nil, fmt.Errorf("index %d out of store", x)
+			}
+			if x == poisoned {
+				err = fmt.Errorf("injected read fault at stored index %d", x)
+				continue // slot stays zero
+			}
+			out[i] = st[x]
+		}
+		return out, err
+	})
+}
